@@ -10,6 +10,7 @@ import (
 	"fmt"
 	"io"
 	"os"
+	"runtime/debug"
 	"testing"
 
 	"github.com/btcsuite/btcd/btcutil/v2"
@@ -71,14 +72,32 @@ func (o outcome) check(t TB, what string, data []byte) {
 
 // Honoured big claims. On this class of (virtualised, loaded) machine zeroing a
 // recycled 100 MB span can take seconds, while a span from never used address
-// space is neither zeroed nor touched. The harness therefore (1) limits the
-// number of claims per process that the unchanged decoders honour with a
-// multi-megabyte allocation and (2) keeps what those decodes allocated alive,
-// so that the next one is again served from fresh address space.
+// space is neither zeroed nor touched. The hostile sub-checks therefore run
+// their first cases with the garbage collector switched off and spend a small
+// per-process budget of claims that the unchanged decoders honour with a
+// multi-megabyte allocation during that phase (nothing is freed, so nothing is
+// recycled); afterwards the collector is switched on again and such claims
+// are replaced by limit+1. TotalAlloc metering is independent of all this.
 var (
 	bigClaimBudget = 24
-	keepAlive      []any
+	gcOffCases     = 0
+	gcIsOff        = false
 )
+
+const gcOffMaxCases = 4000
+
+func bigClaimPhase() {
+	if gcOffCases == 0 && bigClaimBudget > 0 {
+		debug.SetGCPercent(-1)
+		gcIsOff = true
+	}
+	gcOffCases++
+	if gcIsOff && (bigClaimBudget <= 0 || gcOffCases > gcOffMaxCases) {
+		debug.SetGCPercent(100)
+		gcIsOff = false
+		bigClaimBudget = 0
+	}
+}
 
 // elemCost is the approximate number of bytes the decoders allocate per
 // claimed element (cost prediction only - never part of an oracle).
@@ -247,17 +266,14 @@ func probeMessage(t TB, rec *ev.Rec, stream []byte, pver uint32, net wire.Bitcoi
 }
 
 // probeDirect offers a payload to the BtcDecode method of the command's
-// message type, keeping the (partially) decoded message alive. Used for the
-// few claims that the decoders honour with a large allocation.
+// message type (no framing). Used for the few claims that the decoders honour
+// with a large allocation.
 func probeDirect(t TB, rec *ev.Rec, kind string, payload []byte, pver uint32, enc wire.MessageEncoding) error {
 	msg := newEmpty(kind)
 	rb := bytes.NewBuffer(append([]byte(nil), payload...))
 	what := fmt.Sprintf("%T.BtcDecode(pver=%d, enc=%d)", msg, pver, enc)
 	o := metered(what, payload, func() error { return msg.BtcDecode(rb, pver, enc) })
 	noteAlloc(rec, o, what, payload)
-	if o.alloc > 2<<20 {
-		keepAlive = append(keepAlive, msg)
-	}
 	o.check(t, what, payload)
 	if o.err != nil {
 		return o.err
@@ -300,9 +316,6 @@ func probeTx(t TB, rec *ev.Rec, data []byte, witness bool, meter bool) error {
 		}()
 	}
 	o.check(t, what, data)
-	if o.alloc > 2<<20 {
-		keepAlive = append(keepAlive, &tx)
-	}
 	consumed := len(data) - r.Len()
 	if witness && (o.alloc < 2<<20 || !meter) { // the same decoder again: not after a 10-150 MB decode
 		var utx *btcutil.Tx
@@ -379,9 +392,6 @@ func probeBlock(t TB, rec *ev.Rec, data []byte, witness bool, meter bool) error 
 		}()
 	}
 	o.check(t, what, data)
-	if o.alloc > 2<<20 {
-		keepAlive = append(keepAlive, &blk)
-	}
 	consumed := len(data) - r.Len()
 	if witness && (o.alloc < 2<<20 || !meter) {
 		var ub *btcutil.Block
@@ -619,6 +629,7 @@ var recHostileMsg = ev.New("C08", "hostile-messages",
 
 func TestHostileMessages(t *testing.T) {
 	rapid.Check(t, func(t *rapid.T) {
+		bigClaimPhase()
 		kind := rapid.SampledFrom(msgKinds[:len(msgKinds)-1]).Draw(t, "kind") // wtxidrelay cannot be read
 		pver := genPver(t)
 		enc := genEnc(t)
@@ -694,6 +705,7 @@ var recHostileTx = ev.New("C08", "hostile-tx-block",
 
 func TestHostileTxBlock(t *testing.T) {
 	rapid.Check(t, func(t *rapid.T) {
+		bigClaimPhase()
 		target := rapid.SampledFrom([]string{"tx", "tx", "tx", "block", "block", "header"}).Draw(t, "target")
 		witness := rapid.Bool().Draw(t, "witness")
 		if target == "header" {
